@@ -109,3 +109,12 @@ Theorem C13_initial_payload_is_initial_obj : forall m p tn fs,
   mval_json (fst (complete_impl false p (fst (split m p (NObj tn fs))))) = TObj (initial_obj (mark_at m p) (map (field_json p) fs)).
 Proof. exact initial_payload_is_initial_obj_lemma. Qed.
 Print Assumptions C13_initial_payload_is_initial_obj.
+
+(** ... and at each group: when a group's fields run (their marks removed, nothing deferred below them, none failing) the
+    model delivers exactly the object of the group's keys. *)
+Theorem C13_group_payload_is_group_obj : forall m' p tn (fs : list (string * bool * rnode)) (lab : string) (mark : string -> option string),
+  let gfs := filter (fun f => match mark (fst (fst f)) with Some l => String.eqb l lab | None => false end) fs in
+  flat m' p gfs -> clean m' p gfs -> (forall f, In f gfs -> mark_at m' p (fst (fst f)) = None) ->
+  mval_json (fst (complete_impl false p (fst (split m' p (NObj tn gfs))))) = TObj (group_obj mark (map (field_json p) fs) lab).
+Proof. exact group_payload_is_group_obj_lemma. Qed.
+Print Assumptions C13_group_payload_is_group_obj.
